@@ -2716,6 +2716,13 @@ class op(object):
         cnames = basenames(constraints)
         vnames = basenames(variables)
 
+        def num(a):
+            # A number field has 12 characters: numbers with a three 
+            # digit exponent are written with one digit less.
+            s = '% 7.5E' %a
+            if len(s) > 12: s = '% 7.4E' %a
+            return s
+
         f = open(filename,'w')
         f.write('NAME')
         if self.name: f.write(10*' ' + self.name[:8].rjust(8))
@@ -2746,7 +2753,7 @@ class op(object):
                     if cf[i] != 0.0:
                         f.write(4*' ' + varname[:8].rjust(8))
                         f.write(2*' ' + '%8s' %'cost')
-                        f.write(2*' ' + '% 7.5E\n' %cf[i])
+                        f.write(2*' ' + num(cf[i]) + '\n')
 
                 for j in range(len(constraints)):
                      c = constraints[j]
@@ -2761,7 +2768,7 @@ class op(object):
                                      + '_' + str(l)
                                  f.write(4*' ' + varname[:8].rjust(8))
                                  f.write(2*' ' + conname[:8].rjust(8))
-                                 f.write(2*' ' + '% 7.5E\n' %cf[l,i])
+                                 f.write(2*' ' + num(cf[l,i]) + '\n')
                          elif cf.size == (1,len(v)):
                              if cf[0,i] != 0.0:
                                  for l in range(len(c)):
@@ -2771,21 +2778,21 @@ class op(object):
                                          varname[:8].rjust(8))
                                      f.write(2*' ' + 
                                          conname[:8].rjust(8))
-                                     f.write(2*' '+'% 7.5E\n' %cf[0,i])
+                                     f.write(2*' '+num(cf[0,i]) + '\n')
                          elif _isscalar(cf):
                              if cf[0,0] != 0.0:
                                  conname = cname[:(7-len(str(i)))] \
                                      + '_' + str(i)
                                  f.write(4*' ' + varname[:8].rjust(8))
                                  f.write(2*' ' + conname[:8].rjust(8))
-                                 f.write(2*' ' + '% 7.5E\n' %cf[0,0])
+                                 f.write(2*' ' + num(cf[0,0]) + '\n')
 
                 if f.tell() == pos:
                     # a column without nonzero entries must still be
                     # declared (it is listed in the BOUNDS section)
                     f.write(4*' ' + varname[:8].rjust(8))
                     f.write(2*' ' + '%8s' %'cost')
-                    f.write(2*' ' + '% 7.5E\n' %0.0)
+                    f.write(2*' ' + num(0.0) + '\n')
                         
         f.write('RHS\n') 
         for j in range(len(constraints)):
@@ -2796,9 +2803,9 @@ class op(object):
                  conname = cname[:(7-len(str(l)))] + '_' + str(l)
                  f.write(14*' ' + conname[:8].rjust(8))
                  if const.size[0] == len(c):
-                     f.write(2*' ' + '% 7.5E\n' %const[l])
+                     f.write(2*' ' + num(const[l]) + '\n')
                  else:
-                     f.write(2*' ' + '% 7.5E\n' %const[0])
+                     f.write(2*' ' + num(const[0]) + '\n')
 
         f.write('RANGES\n') 
 
